@@ -40,7 +40,13 @@ func (e *Engine) execCall(fr *Frame, st *State, instr ssa.Instruction, call *ssa
 		}
 	}
 	if call.IsInvoke() {
-		recv := e.val(fr, call.Value)
+		return e.execInvoke(fr, st, call, e.val(fr, call.Value), args, resT, pos)
+	}
+	return e.execCallRest(fr, st, instr, call, args, resT, pos)
+}
+
+func (e *Engine) execInvoke(fr *Frame, st *State, call *ssa.CallCommon, recv Val, args []Val, resT types.Type, pos string) Val {
+	{
 		e.oblige(st, "safety/nil", not(eq(recv.Fs[0].T, "0")), pos, "method call on nil interface", nil)
 		// known dynamic type: resolve statically
 		if k, ok := litVal(recv.Fs[0].T); ok {
@@ -74,6 +80,9 @@ func (e *Engine) execCall(fr *Frame, st *State, instr ssa.Instruction, call *ssa
 		}
 		return e.callUnknown(fr, st, key, all, resT, pos)
 	}
+}
+
+func (e *Engine) execCallRest(fr *Frame, st *State, instr ssa.Instruction, call *ssa.CallCommon, args []Val, resT types.Type, pos string) Val {
 	switch f := call.Value.(type) {
 	case *ssa.Builtin:
 		return e.execBuiltin(fr, st, f, call, args, resT, pos)
@@ -667,8 +676,8 @@ func (e *Engine) checkFrame(fr *Frame, st *State, pos string) {
 		if now == was {
 			continue
 		}
-		if k == "G$allocd" {
-			continue // the allocation counter: any function may allocate
+		if e.freeGhostKey(k) {
+			continue // bookkeeping ghosts declared free: any function may change them
 		}
 		if strings.HasPrefix(k, "B$") {
 			continue // box memory holds only immutable boxed values under fresh ids
@@ -771,7 +780,9 @@ func sortStrings(s []string) {
 func (e *Engine) execDeferred(fr *Frame, st *State, d deferred, pos string) {
 	call := d.call
 	if call.IsInvoke() {
-		unsup("deferred interface method call")
+		// the receiver was evaluated when the defer statement ran
+		e.execInvoke(fr, st, call, d.fn, d.args, nil, pos)
+		return
 	}
 	switch f := call.Value.(type) {
 	case *ssa.Function:
@@ -1036,4 +1047,21 @@ func (e *Engine) evalClause(c Clause, env *Env, what string) (t string) {
 		}
 	}()
 	return e.evalBool(c.Expr, env)
+}
+
+func (e *Engine) freeGhostKey(k string) bool {
+	if !strings.HasPrefix(k, "G$") {
+		return false
+	}
+	for _, g := range e.contracts.Ghosts {
+		if !g.Free {
+			continue
+		}
+		for _, gk := range ghostKeys(g) {
+			if gk.name == k {
+				return true
+			}
+		}
+	}
+	return false
 }
